@@ -1,6 +1,6 @@
 PROPS["C09"] = prop(
     "exploration",
-    "rapid-generated note/publish/permission histories; oracles: bounds+monotonicity invariant over consecutive store snapshots, validity model for every note (valid => stored, invalid => no frame, no store change), recipient/field checks for every relayed {info}/{pres}; session 3: notes to unresolvable names, P2P re-invitation, marks shown in the own description equal the stored ones, store latency",
+    "rapid-generated note/publish/permission histories; oracles: bounds+monotonicity invariant over consecutive store snapshots, validity model for every note (valid => stored, invalid => no frame, no store change), recipient/field checks for every relayed {info}/{pres}; session 3: notes to unresolvable names, P2P re-invitation, marks shown in the own description equal the stored ones, store latency; after seeded round 6: receipts sent by root on behalf of a member, typing notes relayed through 'me' never reach the typist's own sessions, a note reaching a terminated topic is never answered 'locked'",
     "program = 4-5 sessions (owner, member with a second 'me'-only session, readers/channel readers) + messages + 4-16 ops, half of them notes with seq from {-1,0,1..6,1000} and kinds {read,recv,kp,kpa,kpv,data,bogus}; "
     "non-trivial = >=2 different valid notes by one user on one topic, >=1 invalid note and >=1 relayed notification; distinct = FNV-64 of the program",
     "Every stored and reported mark is checked after every step; every note is classified by an independent validity model and its effects/non-effects are checked at all sessions. Sampled.",
